@@ -500,6 +500,9 @@ class FitBase(FileIOMixin, object):
                 for _suffix in ("", "_error", "_cov_mat"):
                     _node_name = _type + _suffix if _axis is None else "_".join((_axis, _type)) + _suffix
                     self._nexus.get(_node_name).mark_for_update()
+        if self._implicit_no_errors and self._data_container.has_errors:
+            # the new container declares uncertainties: the implicit no-errors chi2 no longer applies
+            self._on_error_change()
 
     @property
     def data_error(self):
